@@ -92,21 +92,19 @@ def gen_case(r, tier, long_blocks=0):
 
 
 def gen_aes(rng, tier, mult):
-    n = (150 if tier == "quick" else 1500) * mult
+    n = (1000 if tier == "quick" else 6000) * mult
     cases = []
     for ci in range(n):
         r = rng.fork("a%d" % ci)
         lb = 0
-        if tier == "quick":
-            if ci % 10 == 0:
-                lb = 256
-        else:
-            if ci % 10 == 0:
-                lb = 256
-            elif ci % 100 == 5:
-                lb = 65536
-            elif ci % 500 == 7:
-                lb = 131072
+        if ci % 10 == 0:
+            lb = 256
+        elif ci % 250 == 3:
+            lb = 4096
+        elif (tier != "quick" and ci % 150 == 5) or (tier == "quick" and ci % 500 == 5):
+            lb = 65536
+        elif tier != "quick" and ci % 1000 == 7:
+            lb = 131072
         cases.append(gen_case(r, tier, lb))
     # malformed / out-of-order op streams: both sides must say `skip`
     for ci in range(max(2, n // 50)):
@@ -161,7 +159,7 @@ def classify(case, out):
             if tot % 16 and s and (tot % 16) + s > 16:
                 tags.append("straddle")
             before, tot = tot, tot + s
-            for lim in (256, 65536, 131072):
+            for lim in (256, 4096, 65536, 131072):
                 if before < lim * 16 <= tot:
                     tags.append("crosses_block_%d" % lim)
     for o in out:
@@ -172,7 +170,7 @@ def classify(case, out):
 
 RULE = ("lives of one stream object: expand (16/32-byte key) ; block* ; init nonce ; stream calls with sizes from "
         "{0,1,2,15,16,17,31,32,33,47..65,255..257,4095..4112} and random, a third in place ; up to two init2 re-initialisations "
-        "(with/without new key) ; every 10th case carries the block counter across 256 blocks, thorough also across 65536 and "
+        "(with/without new key) ; every 10th case carries the block counter across 256 blocks, some across 4096, two per component across 65536, thorough many across 65536 and "
         "131072 (streamzero = one call of n zero bytes, summarised by FNV-1a + last 32 bytes) ; plus out-of-order op streams. "
         "non-trivial = >= 2 calls and at least one call straddling a 16-byte boundary")
 
